@@ -82,6 +82,7 @@ func inspectFile(filePath string) {
 	f, err := os.Open(filePath)
 	if err != nil {
 		log.Printf("error processing file %#v: %v", filePath, err)
+		return
 	}
 	defer func() {
 		_ = f.Close()
